@@ -99,6 +99,14 @@ def gen(rng, tier):
                 plans.append(p)
                 by_tag[str(tag)] = _http_script(p)
                 body = b"x" * rng.choice([0, 0, 10, 3000])
+                if rng.random() < 0.2:
+                    # more body messages than the application's queue holds (each chunk is one message): the reader is itself waiting for
+                    # room when the application - which may never read them - ends its response, fails, or the connection goes
+                    config["max_app_queue_size"] = q = rng.choice([2, 10])
+                    nchunks = q + rng.choice([-2, -1, 0, 1, 2, 5])
+                    reqs.append(b"POST /t%d HTTP/1.1\r\nHost: h\r\ntransfer-encoding: chunked\r\n\r\n" % tag +
+                                b"".join(b"2\r\nc%d\r\n" % (j % 10) for j in range(nchunks)) + b"0\r\n\r\n")
+                    continue
                 reqs.append(b"POST /t%d HTTP/1.1\r\nHost: h\r\ncontent-length: %d\r\n\r\n%s" % (tag, len(body), body))
             if shape == "h1.pipelined":
                 client.append(["feed", b"".join(reqs)])
